@@ -34,6 +34,7 @@ inductive Err where
   | invalidIdx    -- ptttype.ErrInvalidIdx
   | invalidParams -- bbs.ErrInvalidParams
   | noRecord      -- ptt.ErrNoRecord
+  | invalidFilename -- ptttype.ErrInvalidFilename
   | fault (f : Fault)
   deriving DecidableEq, Repr, Inhabited
 
@@ -48,6 +49,7 @@ instance : ToString Err where
     | .invalidIdx => "err:invalididx"
     | .invalidParams => "err:invalidparams"
     | .noRecord => "err:norecord"
+    | .invalidFilename => "err:invalidfilename"
     | .fault f => toString f
 
 /-- `file.Seek(128*i)` followed by `types.BinaryRead(file, header)`. -/
@@ -482,6 +484,18 @@ def findNewest (names : List Name) (cached : Int) (isDesc : Bool) : R Int × Int
       match getBTotalWithRetry names cached with
       | (.error e, c) => (.error e, c)
       | (.ok total, c) => (pttFindStart (names.map absEntry) total t (some (absEntry last).key) isDesc, c)
+
+/-- `ptt.getFileHeader` — the by-name lookup in front of EditPost and CrossPost: the total comes from
+`cache.GetBTotalWithRetry` (a cold total, 0 after `ReloadBCache`, is re-counted first), then `cmsys.GetRecord`.
+Result (found or the error) and the cached total afterwards. -/
+def lookupByName (names : List Name) (cached : Int) (nm : Name) : R Unit × Int :=
+  match getBTotalWithRetry names cached with
+  | (.error e, c) => (.error e, c)
+  | (.ok total, c) =>
+    if total = 0 then (.error .invalidFilename, c)
+    else match getRecord (names.map absEntry) (absEntry nm) total with
+      | .error e => (.error e, c)
+      | .ok _ => (.ok (), c)
 
 structure BbsPage where
   start : Int
